@@ -208,7 +208,8 @@ def make_volume_from_radius_nd_compiled() -> Callable[[TNumArr, int], TNumArr]:
     @register_jitable
     def volume_from_radius_impl(radius: TNumArr, dim: int) -> TNumArr:
         if dim == 1:
-            return 2 * radius  # type: ignore
+            # (a float factor, so all branches have the same type for integer radii)
+            return 2.0 * radius  # type: ignore
         elif dim == 2:
             return π * radius**2  # type: ignore
         elif dim == 3:
